@@ -222,23 +222,30 @@ Proof.
   - left. apply grow_none in Eg; [|assumption]. unfold SMALL. lia.
 Qed.
 
-Hypothesis alloc_small : forall sz, sz <= 1125899906842624 -> alloc_ok sz = true.
+(* why an operation may report failure: the request is not small, or the allocator refused a request of at
+   most 2^50 bytes (an allocation failure proper) *)
+Definition refusal (v : vec) (n : Z) : Prop :=
+  SMALL < zlen (v_elems v) + n \/ exists sz, sz <= 1125899906842624 /\ alloc_ok sz = false.
 
-Lemma vreserve1_err v n :
-  vinv v -> 0 <= n <= ULONG_MAX -> vreserve1 v n = RsvErr -> SMALL < zlen (v_elems v) + n.
+Lemma vreserve1_err_gen v n :
+  vinv v -> 0 <= n <= ULONG_MAX -> vreserve1 v n = RsvErr -> refusal v n.
 Proof.
-  intros Hi Hn E. pose proof (vreserve1_spec v n Hi Hn) as H. rewrite E in H.
-  destruct H as [H|(sz & Hsz & Ha)]; [assumption|]. rewrite alloc_small in Ha by assumption. discriminate.
+  intros Hi Hn E. pose proof (vreserve1_spec v n Hi Hn) as H. rewrite E in H. exact H.
 Qed.
 
 (* one operation: the invariant is kept; a failure changes nothing and only happens on a request that is not
    small; a success does what the list program does and only happens on a representable size *)
-Lemma vstep_refines v op :
+Definition refusal_op (v : vec) (op : vop) : Prop :=
+  match request op with Some n => refusal v n | None => False end.
+
+(* one operation, ANY allocator: the invariant is kept; a failure changes NOTHING (capacity, length, contents)
+   and has a reason; a success does what the list program does and only happens on a representable size *)
+Lemma vstep_refines_gen v op :
   vinv v -> op_wf op ->
   let '(v', o) := vstep v op in
   vinv v' /\
   if is_failure op o
-  then v' = v /\ small_request (v_elems v) op = false
+  then v' = v /\ refusal_op v op
   else must_fail stride hdr (v_elems v) op = false /\ o = snd (lstep (v_elems v) op) /\
        v_elems v' = fst (lstep (v_elems v) op).
 Proof.
@@ -248,7 +255,7 @@ Proof.
     let '(v', o) := vpush stride hdr init_cap alloc_ok v x in
     vinv v' /\
     match o with
-    | VoErr => v' = v /\ (zlen (v_elems v) + 1 <=? SMALL) = false
+    | VoErr => v' = v /\ refusal v 1
     | _ => (ULONG_MAX <? (zlen (v_elems v) + 1) * stride + hdr) = false /\
            o = VoIdx (zlen (v_elems v)) x /\ v_elems v' = v_elems v ++ [x]
     end).
@@ -261,24 +268,24 @@ Proof.
       split; [unfold vinv; cbn [v_siz v_elems]; rewrite zlen_app; change (zlen [x]) with 1; lia|].
       split; [|split; reflexivity]. apply Z.ltb_ge. nia.
     - split; [assumption|]. split; [reflexivity|].
-      apply Z.leb_gt. apply vreserve1_err; [assumption|unfold ULONG_MAX; lia|assumption]. }
+      apply vreserve1_err_gen; [assumption|unfold ULONG_MAX; lia|assumption]. }
   destruct op as [x| |n| | | | | | |]; cbn [VectorDefs.vstep].
   - specialize (Hpush x). destruct (vpush stride hdr init_cap alloc_ok v x) as [v' o].
     destruct Hpush as [Hi' Ho]. split; [assumption|].
-    destruct o; cbn [is_failure]; unfold small_request, must_fail; cbn [request lstep fst snd];
+    destruct o; cbn [is_failure]; unfold refusal_op, must_fail; cbn [request lstep fst snd];
       try (destruct Ho as (? & ? & ?); discriminate); [assumption|].
     destruct Ho as (Hm & E & El). split; [assumption|]. split; assumption.
   - specialize (Hpush 0). destruct (vpush stride hdr init_cap alloc_ok v 0) as [v' o].
     destruct Hpush as [Hi' Ho]. split; [assumption|].
-    destruct o; cbn [is_failure]; unfold small_request, must_fail; cbn [request lstep fst snd];
+    destruct o; cbn [is_failure]; unfold refusal_op, must_fail; cbn [request lstep fst snd];
       try (destruct Ho as (? & ? & ?); discriminate); [assumption|].
     destruct Ho as (Hm & E & El). split; [assumption|]. split; assumption.
   - cbn [op_wf] in Hwf. pose proof (vreserve1_spec v n Hi Hwf) as Hr.
-    destruct (vreserve1 v n) as [|s|] eqn:Er; cbn [is_failure]; unfold small_request, must_fail; cbn [request lstep fst snd].
+    destruct (vreserve1 v n) as [|s|] eqn:Er; cbn [is_failure]; unfold refusal_op, must_fail; cbn [request lstep fst snd].
     + split; [assumption|]. split; [apply Z.ltb_ge; nia|split; reflexivity].
     + destruct Hr as (H1 & H2 & H3). split; [unfold vinv; cbn [v_siz v_elems]; lia|].
       split; [apply Z.ltb_ge; nia|split; reflexivity].
-    + split; [assumption|]. split; [reflexivity|]. apply Z.leb_gt. now apply vreserve1_err.
+    + split; [assumption|]. split; [reflexivity|]. now apply vreserve1_err_gen.
   - (* pop *)
     destruct (snoc_case (v_elems v)) as [E|(r & x & E)].
     + rewrite E. cbn [is_failure lstep rev fst snd]. split; [assumption|]. split; [reflexivity|]. rewrite E. split; reflexivity.
@@ -321,6 +328,62 @@ Qed.
 
 Definition trace_of (ops : list vop) (tr : list (vout * Z)) : list (vop * vout) :=
   combine ops (map fst tr).
+
+(* a failed operation leaves the vector exactly as it was - whatever the size, whatever the allocator *)
+Corollary vstep_fail_unchanged v op :
+  vinv v -> op_wf op -> is_failure op (snd (vstep v op)) = true -> fst (vstep v op) = v.
+Proof.
+  intros Hi Hwf Hf. pose proof (vstep_refines_gen v op Hi Hwf) as H.
+  destruct (vstep v op) as [v' o]. cbn [fst snd] in *. rewrite Hf in H. tauto.
+Qed.
+
+(* every operation sequence, ANY allocator (failures at any size, any time the size function says so): the
+   fault-tolerant list-program oracle accepts the model's trace, the final contents are the list program's
+   over the operations that succeeded, the invariant holds at the end *)
+Theorem vrun_refines_any : forall ops v,
+  vinv v -> Forall op_wf ops ->
+  let '(v', tr) := vrun v ops in
+  length tr = length ops /\
+  spec_ok_vec_faulty stride hdr (v_elems v) (trace_of ops tr) = true /\
+  v_elems v' = spec_final (v_elems v) (trace_of ops tr) /\
+  vinv v'.
+Proof.
+  induction ops as [|op ops IH]; intros v Hi Hwf.
+  - simpl. split; [reflexivity|]. split; [reflexivity|]. split; [reflexivity|assumption].
+  - inversion Hwf as [|? ? Hop Hops]; subst. cbn [VectorDefs.vrun].
+    pose proof (vstep_refines_gen v op Hi Hop) as Hs.
+    destruct (vstep v op) as [v1 o]. destruct Hs as [Hi1 Hs].
+    specialize (IH v1 Hi1 Hops). destruct (vrun v1 ops) as [v2 tr].
+    destruct IH as (Hl & Hok & Hfin & Hi2).
+    unfold trace_of in *. cbn [map fst combine length spec_ok_vec_faulty spec_final].
+    split; [now rewrite Hl|].
+    destruct (is_failure op o) eqn:Ef.
+    + destruct Hs as [-> _]. split; [assumption|]. split; assumption.
+    + destruct Hs as (Hm & -> & El). rewrite Hm, vout_eqb_refl. cbn [negb andb].
+      rewrite <- El. split; [assumption|]. split; assumption.
+Qed.
+
+(* ---- an allocator that grants every request of at most 2^50 bytes ------------------------- *)
+Hypothesis alloc_small : forall sz, sz <= 1125899906842624 -> alloc_ok sz = true.
+
+(* then a failure only happens on a request that is not small *)
+Lemma vstep_refines v op :
+  vinv v -> op_wf op ->
+  let '(v', o) := vstep v op in
+  vinv v' /\
+  if is_failure op o
+  then v' = v /\ small_request (v_elems v) op = false
+  else must_fail stride hdr (v_elems v) op = false /\ o = snd (lstep (v_elems v) op) /\
+       v_elems v' = fst (lstep (v_elems v) op).
+Proof.
+  intros Hi Hwf. pose proof (vstep_refines_gen v op Hi Hwf) as H.
+  destruct (vstep v op) as [v' o]. destruct H as [Hi' H]. split; [assumption|].
+  destruct (is_failure op o); [|assumption].
+  destruct H as [-> Hr]. split; [reflexivity|].
+  unfold refusal_op in Hr. unfold small_request. destruct (request op) as [n|]; [|destruct Hr].
+  destruct Hr as [Hr|(sz & Hsz & Ha)]; [apply Z.leb_gt; assumption|].
+  rewrite alloc_small in Ha by assumption. discriminate.
+Qed.
 
 (* every operation sequence: the oracle accepts the model's trace, the final contents are the list
    program's, the invariant holds at the end *)
